@@ -308,6 +308,8 @@ class Interp:
                 return base[2][name]
             if base[0] == "t":
                 return base[1][int(name)]
+            if base[0] == "v" and len(base) == 3 and str(name).isdigit() and int(name) < len(base[2]):
+                return base[2][int(name)]          # field of a tuple struct / tuple variant
         raise H.Unsupported("field %s of %r" % (name, base))
 
     def index(self, base, idx):
